@@ -5,6 +5,7 @@ from props.common import *
 from props import dwtfam, c01
 
 ID = 'C14'
+GRAD_MODES = True
 PROPS_MODULE = 'Props.C14'
 THEOREMS = ['C14_forward_is_functional', 'C14_inverse_is_functional', 'C14_row_pair_on_last_axis', 'C14_forward_per_axis', 'C14_inverse_per_axis']
 VO = ['theories/Props/C14.vo', 'theories/Run/RunDwt.vo']
